@@ -11,7 +11,11 @@ KINDS = ["read_all", "write1", "write2", "fail_body", "fail_encoder", "fail_flus
          # a writing session that first READS a record that is already there (deriving a new record from an old one), then stores
          "read_write1",
          # the STREAM write of the second record's value fails (disk full) - inside UKVFile.put, below the backend's own _write
-         "fail_stream_write"]
+         "fail_stream_write",
+         # a record under the EMPTY key (a legal key) - once per library, afterwards an ordinary write
+         "write_emptykey",
+         # not a session of a live handle at all: some OTHER process was killed in the middle of an append - the file ends in a torn record
+         "killed_mid_append"]
 TIMEOUT = 5.0
 
 
@@ -56,6 +60,16 @@ def run_session(c, kind: str, keys: list[str], vals: list[bytes]) -> dict:
     res = {"exc": None, "seen": None, "put_ok": [], "acquired": True}
     restore = []
     try:
+        if kind == "killed_mid_append":
+            # the harness itself plays the killed process: header + key + HALF of the value of one more record go to the end of the file
+            import struct
+            k_, v_ = keys[0].encode(), vals[0] + b"\0" * 64
+            from molli.storage.ukvfile import UKVFile
+            UKVFile(be._path, "a").close()      # (the process that gets killed had opened the library for appending like any other writer)
+            with open(be._path, "ab") as fh:
+                fh.write(struct.pack(">BI", len(k_), len(v_)) + k_ + v_[: len(v_) // 2])
+            res["state"], res["file_closed"] = be._state, True
+            return res
         if kind in ("fail_begin_write", "fail_begin_read"):
             # the backend cannot open its file (deleted / unreadable library): the session never starts
             attr = "begin_write" if kind == "fail_begin_write" else "begin_read"
@@ -98,7 +112,11 @@ def run_session(c, kind: str, keys: list[str], vals: list[bytes]) -> dict:
                 be.end_write = end_write
                 restore.append(("end_write", real))
             with c.writing(timeout=TIMEOUT):
-                if kind == "read_write1":
+                if kind == "write_emptykey":
+                    k_ = "" if "" not in c.keys() else keys[0]
+                    c[k_] = vals[0]; res["put_ok"].append(k_)
+                    res["put_map"] = {k_: vals[0].hex()}
+                elif kind == "read_write1":
                     ks_ = sorted(c.keys())
                     if ks_:
                         c[ks_[0]]
